@@ -92,16 +92,16 @@ func c12Ops(u *nodelite.Universe, thorough, race bool) []c12Op {
 	}}
 	if race {
 		// operations that create pins, run concurrently with a collection run
-		r := []c12Op{pin("A"), up("A", true), bytesUp("B", true)}
+		r := []c12Op{pin("A"), pin("C"), up("A", true), bytesUp("B", true)}
 		if thorough {
-			r = append(r, chunkUp('x', true), pin("B"))
+			r = append(r, chunkUp('x', true))
 		}
 		return r
 	}
 	ops = append(ops, up("A", false), up("A", true), up("B", false), bytesUp("B", false), bytesUp("B", true),
 		cache("A"), cache("B"), cache("C"), pin("A"), unpin("A"), restart)
 	if thorough {
-		ops = append(ops, up("B", true), chunkUp('x', false), chunkUp('x', true), cache("D"), pin("B"), unpin("B"))
+		ops = append(ops, chunkUp('x', true), cache("D"))
 	}
 	return ops
 }
@@ -212,7 +212,13 @@ func TestVerifC12(t *testing.T) {
 					x.Logf("   .. inside the collection run, at %s: %s -> %s   [%s]", point, r.name, out, a.Key())
 				}
 				n.OnGCDelFile = func(root boson.Address) { race("entry of DelFile(" + u.Name(root) + ")") }
-				n.AfterGCDelFile = func(root boson.Address, _ error) { done = append(done, u.Name(root)) }
+				var removedByGC []string // roots whose DelFile call succeeded: chunkinfo no longer knows the file
+				n.AfterGCDelFile = func(root boson.Address, err error) {
+					done = append(done, u.Name(root))
+					if err == nil {
+						removedByGC = append(removedByGC, u.Name(root))
+					}
+				}
 				res := n.GCHooked(gcCap, func(run int) { race("gc iterator hook") })
 				n.OnGCDelFile, n.AfterGCDelFile = nil, nil
 				gcRuns += res.Runs
@@ -234,6 +240,17 @@ func TestVerifC12(t *testing.T) {
 					}
 					if !still {
 						evicted = append(evicted, e.Root)
+					}
+				}
+				// a racing pin may have taken the file's gc entry away before the snapshot; the file was
+				// evicted all the same if the collector's DelFile call for it succeeded
+				for _, r := range removedByGC {
+					have := false
+					for _, e := range evicted {
+						have = have || e == r
+					}
+					if !have {
+						evicted = append(evicted, r)
 					}
 				}
 				evictions += len(evicted)
@@ -290,6 +307,25 @@ func TestVerifC12(t *testing.T) {
 				}
 				sort.Strings(cs)
 				ctx := fmt.Sprintf("evicted %v; pins before {%s}; uploaded {%s}", evicted, c12PinStr(s1.Pin), c12Names(uploaded))
+				// 0. chunks pinned by the racing operation (it had returned before the collector removed them)
+				for _, c := range cs {
+					if raced != "" && s0gc.Pin[c] == 0 && s1.Pin[c] > 0 && !s2.Data[c] {
+						x.Tag("gc-hit-pinned-chunk")
+						shape := "before-its-file-was-processed"
+						for _, r := range processed {
+							for _, f := range u.Files {
+								if u.Name(f.Root) == r {
+									for _, a := range f.Closure {
+										if u.Name(a) == c {
+											shape = "after-its-file-was-processed"
+										}
+									}
+								}
+							}
+						}
+						x.Fail("gc-deleted-chunk-pinned-during-run-"+shape, "GC deleted %s although %s (at %s) had pinned it (count %d) and returned before the collector removed it; %s", c, raced, racePoint, s1.Pin[c], ctx)
+					}
+				}
 				// 1. chunks that a registered, not evicted file contains must survive in any case
 				for _, c := range cs {
 					if !s2.Data[c] && refs[c] > 0 && (s1.Pin[c] > 0 || uploaded[c]) {
@@ -300,22 +336,6 @@ func TestVerifC12(t *testing.T) {
 				for _, c := range cs {
 					if s1.Pin[c] > 0 && !s2.Data[c] {
 						x.Tag("gc-hit-pinned-chunk")
-						if raced != "" && s0gc.Pin[c] == 0 {
-							// pinned by the racing operation
-							shape := "before-its-file-was-processed"
-							for _, r := range processed {
-								for _, f := range u.Files {
-									if u.Name(f.Root) == r {
-										for _, a := range f.Closure {
-											if u.Name(a) == c {
-												shape = "after-its-file-was-processed"
-											}
-										}
-									}
-								}
-							}
-							x.Fail("gc-deleted-chunk-pinned-during-run-"+shape, "GC deleted %s although %s (at %s) had pinned it (count %d) and returned before the collector removed it; %s", c, raced, racePoint, s1.Pin[c], ctx)
-						}
 						x.Fail("gc-deleted-pinned-chunk", "GC deleted %s whose pin count was %d; %s", c, s1.Pin[c], ctx)
 					}
 				}
